@@ -16,8 +16,10 @@ package federation
 //	F1 fault-free, splittable request: no error; the multiset of returned
 //	   objects equals the set of requested objects that exist; each comes from
 //	   the backend named by its uuid prefix; no uuid is sent to another backend.
-//	F2 an injected backend error, a no-progress answer, or an unknown cluster
-//	   among the requested uuids: the request returns an error. In every run
+//	F2 an injected backend error, a no-progress answer, a backend call that
+//	   ends with the request context's error because the harness cancelled the
+//	   context it passed to the List call while that call was in flight, or an
+//	   unknown cluster among the requested uuids: the request returns an error. In every run
 //	   the number of calls to one backend is at most (#uuids requested from
 //	   it)+1; more is non-termination.
 //	F3 request spanning >=2 clusters that cannot be split (other filter, count,
@@ -86,8 +88,20 @@ type c20Case struct {
 type c20Fault struct {
 	Cluster string `json:"cluster"`
 	K       int    `json:"call"` // per-backend call index
-	Kind    string `json:"kind"` // error | np-foreign | np-repeat | np-nouuid | np-othercluster
+	Kind    string `json:"kind"` // error | np-foreign | np-repeat | np-nouuid | np-othercluster | ctx-cancel
 	Sticky  bool   `json:"sticky,omitempty"`
+	// ctx-cancel: the context that the harness passed to the List call is
+	// cancelled while this backend call is in flight, and the call then ends
+	// with the context's error (what an rpc/http client does when the request
+	// deadline passes or the client goes away).
+	//   Wait "after-others": the cancellation happens once every other
+	//   backend has completed the calls it made in the fault-free run (they
+	//   have delivered their pages); "immediate": as soon as the call arrives.
+	//   OthersObserve: other backends called with a finished context also
+	//   return its error (otherwise they answer normally).
+	Wait          string         `json:"wait,omitempty"`
+	OthersObserve bool           `json:"others_observe,omitempty"`
+	OtherCalls    map[string]int `json:"fault_free_calls,omitempty"`
 }
 
 var c20Kinds = []string{"collection", "container", "container_request", "group", "specimen", "user"}
@@ -246,6 +260,14 @@ type c20Run struct {
 	badKind  string
 	otherReq map[string][]string // prefix -> requested uuids (for np-othercluster)
 	capFor   map[string]int
+	// ctx-cancel fault
+	cond          *sync.Cond
+	cancelReq     context.CancelFunc
+	completed     map[string]int // backend -> calls answered
+	waitExpired   bool
+	reqCancelled  bool
+	othersHadDone bool // when the context was cancelled every other backend had delivered
+	ctxObserved   int  // calls of other backends that ended with the context's error
 }
 
 type c20Backend struct {
@@ -270,6 +292,17 @@ type c20Item struct {
 
 var c20ErrInjected = errors.New("c20 injected backend error")
 var c20ErrCap = errors.New("c20 stub: call cap exceeded")
+
+// c20OthersDone: every other backend has answered as many calls as in the
+// fault-free run. Caller holds r.mu.
+func (r *c20Run) c20OthersDone(self string) bool {
+	for id, n := range r.fault.OtherCalls {
+		if id != self && r.completed[id] < n {
+			return false
+		}
+	}
+	return true
+}
 
 func c20FilterUUIDs(o arvados.ListOptions) (sets []map[string]bool, flat []string) {
 	for _, f := range o.Filters {
@@ -323,6 +356,8 @@ func (b *c20Backend) serve(ctx context.Context, method string, o arvados.ListOpt
 			r.calls[ci].Answer = append(r.calls[ci].Answer, it.UUID)
 		}
 		r.calls[ci].Err = err != nil
+		r.completed[b.spec.ID]++
+		r.cond.Broadcast()
 		return items, err
 	}
 	mk := func(uuid string, selected bool) c20Item {
@@ -355,11 +390,46 @@ func (b *c20Backend) serve(ctx context.Context, method string, o arvados.ListOpt
 	if page < 1 {
 		page = 1
 	}
+	if f := r.fault; f != nil && f.Kind == "ctx-cancel" && !(f.Cluster == b.spec.ID && k == f.K) && f.OthersObserve && r.reqCancelled && ctx.Err() != nil {
+		// an rpc client whose request context is over (only after the
+		// harness ended the request context: splitListRequest's own
+		// cancel() after a first error is ignored by the stubs, as in the
+		// other fault kinds)
+		r.calls[ci].Fault = "ctx-observed"
+		r.ctxObserved++
+		return fin(nil, ctx.Err())
+	}
 	if f := r.fault; f != nil && f.Cluster == b.spec.ID && (k == f.K || (f.Sticky && k > f.K)) {
 		r.fired = true
 		r.calls[ci].Fault = f.Kind
 		if f.Kind == "error" {
 			return fin(nil, c20ErrInjected)
+		}
+		if f.Kind == "ctx-cancel" {
+			if f.Wait == "after-others" && !r.c20OthersDone(b.spec.ID) {
+				// scheduling aid only (never part of a verdict): give up
+				// waiting after 2 s and cancel anyway
+				t := time.AfterFunc(2*time.Second, func() {
+					r.mu.Lock()
+					r.waitExpired = true
+					r.mu.Unlock()
+					r.cond.Broadcast()
+				})
+				for !r.c20OthersDone(b.spec.ID) && !r.waitExpired {
+					r.cond.Wait()
+				}
+				t.Stop()
+			}
+			r.othersHadDone = r.c20OthersDone(b.spec.ID)
+			r.reqCancelled = true
+			r.cancelReq()
+			err := ctx.Err()
+			if err == nil {
+				// the context handed to this backend does not descend
+				// from the request's: end the call the same way
+				err = context.Canceled
+			}
+			return fin(nil, err)
 		}
 		n := 1 + b.rng.Intn(page)
 		if n > 3 {
@@ -539,7 +609,11 @@ func c20Options(c *c20Case) arvados.ListOptions {
 }
 
 func c20Execute(c *c20Case, e *c20Expect, fault *c20Fault) (*c20Run, c20Out) {
-	r := &c20Run{c: c, fault: fault, exist: map[string]bool{}, otherReq: e.ByPrefix, capFor: map[string]int{}}
+	r := &c20Run{c: c, fault: fault, exist: map[string]bool{}, otherReq: e.ByPrefix, capFor: map[string]int{}, completed: map[string]int{}}
+	r.cond = sync.NewCond(&r.mu)
+	ctx, cancel := context.WithCancel(context.Background())
+	defer cancel()
+	r.cancelReq = cancel
 	for _, u := range c.Exist {
 		if !r.exist[u] {
 			r.exist[u] = true
@@ -570,13 +644,12 @@ func c20Execute(c *c20Case, e *c20Expect, fault *c20Fault) (*c20Run, c20Out) {
 				out.Err = fmt.Errorf("c20-panic: %v", p)
 			}
 		}()
-		out = c20Call(conn, c.Kind, opts)
+		out = c20Call(ctx, conn, c.Kind, opts)
 	}()
 	return r, out
 }
 
-func c20Call(conn *Conn, kind string, opts arvados.ListOptions) (out c20Out) {
-	ctx := context.Background()
+func c20Call(ctx context.Context, conn *Conn, kind string, opts arvados.ListOptions) (out c20Out) {
 	switch kind {
 	case "collection":
 		l, err := conn.CollectionList(ctx, opts)
@@ -630,7 +703,7 @@ type c20Witness struct {
 
 // c20Stats are the observations without which a run decides nothing.
 type c20Stats struct {
-	faultsFired, f1Judged, f3Rejected, unknownErrors int
+	faultsFired, f1Judged, f3Rejected, unknownErrors, ctxCancelAfterOthers int
 }
 
 type c20Judge struct {
@@ -714,7 +787,11 @@ func (j *c20Judge) judge() int {
 			if r.fired {
 				evals++
 				if out.Err == nil {
-					j.bad("C20:F2:no-error:"+j.fault.Kind+":local-only", "local backend returned an error, request succeeded")
+					what := j.fault.Kind
+					if what == "ctx-cancel" {
+						what = "backend-error-after-request-context-ended"
+					}
+					j.bad("C20:F2:no-error:"+what+":local-only", "local backend returned an error ("+j.fault.Kind+"), request succeeded")
 				}
 			}
 			return evals
@@ -785,7 +862,33 @@ func (j *c20Judge) judge() int {
 		j.run.Count("fault_fired:"+j.fault.Kind, 1)
 		j.st.faultsFired++
 		evals++
-		if out.Err == nil {
+		if j.fault.Kind == "ctx-cancel" {
+			if r.othersHadDone {
+				j.run.Count("ctx_cancel_after_all_other_backends_had_answered", 1)
+				j.st.ctxCancelAfterOthers++
+			}
+			if r.waitExpired {
+				j.run.Count("ctx_cancel_wait_gave_up", 1)
+			}
+			j.run.Count("ctx_cancel_calls_of_other_backends_ending_with_ctx_error", r.ctxObserved)
+		}
+		if out.Err == nil && j.fault.Kind == "ctx-cancel" {
+			// the call of an involved cluster ended with an error (the
+			// request context's); what was merged so far came back as success
+			got := map[string]bool{}
+			for _, t := range traced {
+				if t.ok {
+					got[t.inst.UUID] = true
+				}
+			}
+			missing := 0
+			for u := range e.Want {
+				if !got[u] {
+					missing++
+				}
+			}
+			j.bad("C20:F2:no-error:backend-error-after-request-context-ended", fmt.Sprintf("the request context was cancelled while backend %s call #%d was in flight (%s, other backends observe it: %v) and that call ended with the context's error; the request nevertheless succeeded with %d items, %d of the %d requested existing objects are missing", j.fault.Cluster, j.fault.K, j.fault.Wait, j.fault.OthersObserve, len(out.Items), missing, len(e.Want)))
+		} else if out.Err == nil {
 			sig := "C20:F2:no-error:" + j.fault.Kind
 			if j.fault.Kind != "error" {
 				sig = "C20:F2:no-error:no-progress-page:" + j.fault.Kind
@@ -1300,11 +1403,16 @@ func c20RunCase(run *verifkit.Run, st *c20Stats, c *c20Case, rng *verifkit.Rand,
 	// ---- a fault at each backend call in turn
 	if e.Class != "none" && e.Class != "empty" && len(calls) > 0 {
 		npKinds := []string{"np-foreign", "np-repeat", "np-nouuid", "np-othercluster"}
+		perBackendFF := map[string]int{}
+		for _, cl := range calls {
+			perBackendFF[cl.Backend]++
+		}
 		for _, cl := range calls {
 			faults := []c20Fault{{Cluster: cl.Backend, K: cl.K, Kind: "error"}}
 			if e.Class != "local-only" {
 				faults = append(faults, c20Fault{Cluster: cl.Backend, K: cl.K, Kind: npKinds[rng.Intn(len(npKinds))], Sticky: rng.Bool()})
 			}
+			faults = append(faults, c20Fault{Cluster: cl.Backend, K: cl.K, Kind: "ctx-cancel", Wait: rng.PickStr("after-others", "after-others", "immediate"), OthersObserve: rng.Bool(), OtherCalls: perBackendFF})
 			for fi := range faults {
 				f := &faults[fi]
 				fr, fout := c20Execute(c, &e, f)
@@ -1374,6 +1482,9 @@ func TestVerifC20(t *testing.T) {
 	if !run.Replaying() {
 		if st.faultsFired == 0 {
 			run.Inconclusive("C20: no injected backend fault was ever reached")
+		}
+		if st.ctxCancelAfterOthers == 0 {
+			run.Inconclusive("C20: the request context was never cancelled during a backend call after the other backends had answered")
 		}
 		if st.f1Judged == 0 {
 			run.Inconclusive("C20: no successful split answer was judged (F1)")
